@@ -178,12 +178,17 @@ func (this *Allocator) isPartitionAssignedToNode(partition *partition) bool {
 }
 
 func (this *Allocator) canModifyPartition(partition *partition) bool {
-	if len(partition.nodeIds()) > 0 {
-		return partition.nodeIds()[0] == this.clusterConn.Id()
+	// The catalogue is applied on another goroutine and replaces the replica list:
+	// look at one version of it (it can lose its last entry between two reads).
+	if nodeIds := partition.nodeIds(); len(nodeIds) > 0 {
+		return nodeIds[0] == this.clusterConn.Id()
 	}
 
 	// Default leader for the whole cluster
-	return this.clusterConn.Id() == this.clusterConn.NodeIds()[0]
+	if nodeIds := this.clusterConn.NodeIds(); len(nodeIds) > 0 {
+		return this.clusterConn.Id() == nodeIds[0]
+	}
+	return false
 }
 
 // Returns watched partitions. The lock must not be held while proposing:
